@@ -18,7 +18,9 @@
 //
 // Output (see lean/Driver/C14.lean): `g0:N ev … | g1:P ev … ; cur=- live=0`.
 //
-// Direct predicates (classes): wrong-current, not-restored, leaked-to-other-goroutine, child-visible-to-parent,
+//   hi <minId> prog|progs|progi …, gidlive <minId> <k>, @gidfree <minId> <k>: goroutine ids of 7+ digits, see gid.go
+//
+// Direct predicates (classes): gid-collision (gid.go), wrong-current, not-restored, leaked-to-other-goroutine, child-visible-to-parent,
 // parent-invisible-to-child, fork-copy-late, tls-leak, crash (+ wrong-var / wrong-stack / wrong-load for a disagreement
 // with the reference semantics that fits none of the named classes).  They are evaluated against a *shadow*: every real
 // context has a shadow holding what its variables, stack and loader chain must be under the property (copied in the
@@ -1010,7 +1012,7 @@ func (r *runner) pred() string {
 		return "ok"
 	}
 	// the most specific class first
-	order := []string{"crash", "leaked-to-other-goroutine", "fork-copy-late", "child-visible-to-parent", "parent-invisible-to-child", "wrong-current", "not-restored", "tls-leak"}
+	order := []string{"crash", "gid-collision", "leaked-to-other-goroutine", "fork-copy-late", "child-visible-to-parent", "parent-invisible-to-child", "wrong-current", "not-restored", "tls-leak"}
 	best := r.fails[0]
 	bi := len(order)
 	for _, f := range r.fails {
@@ -1027,7 +1029,18 @@ func (r *runner) pred() string {
 var gmpLock sync.Mutex
 
 func exec(c px.Context, op string, args []sx.Sexp) core.Result {
+	return execAt(c, op, args, 0)
+}
+
+// execAt: minGid > 0 = every goroutine of the op must have a runtime id >= minGid (ops `hi`, `gidlive`: gid.go)
+func execAt(c px.Context, op string, args []sx.Sexp, minGid int64) core.Result {
 	switch op {
+	case "hi":
+		return execHi(c, args, minGid)
+	case "gidlive":
+		return execGidLive(args)
+	case "gidfree":
+		return execGidFree(args)
 	case "prog", "progs", "progi":
 		var sched []int
 		var term sx.Sexp
@@ -1053,6 +1066,9 @@ func exec(c px.Context, op string, args []sx.Sexp) core.Result {
 		defer gmpLock.Unlock()
 		old := runtime.GOMAXPROCS(1)
 		defer runtime.GOMAXPROCS(old)
+		if minGid > 0 {
+			burnTo(minGid)
+		}
 		base := threadlocal.VerifLiveTables()
 		r := newRunner(true, sched, n)
 		r.inter = op == "progi"
@@ -1065,6 +1081,9 @@ func exec(c px.Context, op string, args []sx.Sexp) core.Result {
 		res := core.Result{Out: r.render(curTag, live), Pred: r.pred(), Tags: tagsOf(n, r, len(sched) > 0)}
 		if r.inter {
 			res.Tags = append(res.Tags, "interleaved")
+		}
+		if minGid > 0 {
+			res.Tags = append(res.Tags, "high-gids")
 		}
 		n.walk(func(x *node) {
 			switch x.op {
@@ -1395,14 +1414,19 @@ func shapeLook() []*node {
 	return []*node{leafN("get", "a"), leafN("get", "b"), {op: "obs"}, leafN("load", "A")}
 }
 
-func genShapes(g *core.G) {
+func genShapes(g *core.G, hi *[]string) {
 	kinds := []string{"fork", "go", "doctx", "doparent", "do", "try"}
+	count := 0
 	emit := func(f []*node) {
 		next := 0
 		t := number(wrap(clone(f)), &next)
 		if hasSpawn(t) {
 			emitProg(g, t, eager)
 			emitInter(g, t, alternate)
+			// every 7th goroutine-starting shape once more among goroutines with 7-digit ids (emitted together, later)
+			if count++; count%7 == 0 {
+				*hi = append(*hi, "progs "+schedStr(eager)+" "+t.sexp().String(), "progi "+schedStr(alternate)+" "+t.sexp().String())
+			}
 		} else {
 			emitProg(g, t)
 		}
@@ -1435,6 +1459,53 @@ func genShapes(g *core.G) {
 	}
 }
 
+func genGids(g *core.G, r *rand.Rand, hi []string) {
+	level := func(base int, progs []string) {
+		b := strconv.Itoa(base)
+		// back to back forks, all alive together: straddling the power of ten, exactly at it, and anywhere above.  The ids of
+		// a process only grow, so the ops are emitted in ascending order of the id they ask for: then the goroutines of
+		// `gidlive m k` have exactly the ids m … m+k (the model computes the table keys of exactly these)
+		g.Emit("gidlive " + strconv.Itoa(base-30) + " 16")
+		g.Emit("gidlive " + strconv.Itoa(base-3) + " 8")
+		at := base + 10
+		for _, k := range []int{1, 2, 16, 64} {
+			g.Emit("gidlive " + strconv.Itoa(at) + " " + strconv.Itoa(k))
+			at += k + 7
+		}
+		for _, p := range progs {
+			g.Emit("hi " + b + " " + p)
+		}
+		at = base + 100000
+		for i := 0; i < 6*g.Scale; i++ {
+			k := 2 + r.Intn(63)
+			at += 1 + r.Intn(base/(8*g.Scale))
+			g.Emit("gidlive " + strconv.Itoa(at) + " " + strconv.Itoa(k))
+			at += k
+		}
+		for _, k := range []int{8, 64} {
+			g.Emit("@gidfree " + b + " " + strconv.Itoa(k))
+		}
+	}
+	// the witnesses of the known pre-fix defects and two fixed programs, then the collected shapes / random programs
+	fixed := []string{
+		"prog (seq (set a 1) (fork (get a) (obs)) (set a 2) (get a) (obs))",
+		"progs (1 1 1 1) (seq (fork (obs) (fork (obs))) (go (obs)) (obs))",
+		"progi (0 1 0 1 0 1 0 1) (seq (fork (obs) (set a 1) (get a)) (fork (obs) (set a 2) (get a)) (obs))",
+	}
+	level(1000000, append(fixed, hi...))
+	if g.Thorough() {
+		// 8 digits: reached in steps, so that no single op has to start more than 2.5 million goroutines
+		for _, b := range []int{3500000, 6000000, 8500000} {
+			g.Emit("hi " + strconv.Itoa(b) + " prog (obs)")
+		}
+		n := len(hi)
+		if n > 400 {
+			n = 400
+		}
+		level(10000000, append(fixed, hi[:n]...))
+	}
+}
+
 func gen(g *core.G) {
 	// 1. the exhaustive small universe: every forest of at most 4 (quick) / 5 (thorough) nodes
 	max := 4
@@ -1455,7 +1526,8 @@ func gen(g *core.G) {
 		}
 	}
 	// 1b. state shapes × scope kinds × child actions × observers
-	genShapes(g)
+	var hi []string
+	genShapes(g, &hi)
 	// 2. random programs of size 12 (and a few larger) under random oracles
 	x := &rgen{r: g.Rng}
 	for i := 0; i < 2500*g.Scale; i++ {
@@ -1495,6 +1567,9 @@ func gen(g *core.G) {
 				cs = append(cs, youngest)
 			}
 			emitInter(g, t, cs...)
+			if i%5 == 0 {
+				hi = append(hi, "progs "+schedStr(ss[1])+" "+t.sexp().String(), "progi "+schedStr(cs[1])+" "+t.sexp().String())
+			}
 		} else if i%5 == 0 {
 			emitInter(g, t, nil)
 		}
@@ -1506,8 +1581,12 @@ func gen(g *core.G) {
 		k := []int{2, 8, 32, 64}[x.r.Intn(4)]
 		g.Emit("@free " + strconv.Itoa(k) + " " + t.sexp().String())
 	}
+	// 3b. goroutine ids of 7 (thorough: also 8) digits: see gid.go.  All ops of one magnitude are emitted together (the ids
+	// of a process only grow; the first op of a run pays for the goroutines that have to be started and ended first)
+	genGids(g, x.r, hi)
 	// 4. malformed
-	for _, l := range []string{"prog (obs 1)", "prog (set a)", "prog (doctx x (obs))", "prog (doctx 1000 (obs))", "prog (frok (obs))", "progs (1 x) (obs)", "prog (set a -1)", "prog obs", "prog (get a-b)"} {
+	for _, l := range []string{"hi 1000000 prog (obs 1)", "hi 0 prog (obs)", "hi 1000000 hi 1000000 prog (obs)", "hi 1000000 free 2 (obs)", "hi x prog (obs)",
+		"gidlive 1000000 0", "gidlive 1000000 257", "gidlive 0 4", "gidlive 20000001 4", "gidlive 1000000", "hi 20000001 prog (obs)", "prog (obs 1)", "prog (set a)", "prog (doctx x (obs))", "prog (doctx 1000 (obs))", "prog (frok (obs))", "progs (1 x) (obs)", "prog (set a -1)", "prog obs", "prog (get a-b)"} {
 		g.Emit(l)
 	}
 }
